@@ -264,6 +264,53 @@ def run(chk):
             if not np.array_equal(npo, direct[1].sum(axis=1)):
                 chk.violation('project_3d_to_poles-counts', f'{c}: project_3d_to_poles mode counts {npo.tolist()} != k-bin totals {direct[1].sum(axis=1).tolist()}', dict(inst=c))
         chk.part('wrappers', runs=nw)
+    # ---- schedule replay of the real bin_kmu / bin_kppi source: worker threads with contiguous row chunks, per-thread accumulators
+    # shared through proxies (a thread-shared accumulator or a wrong thread id loses counts only under particular interleavings)
+    import sched
+    nsch = 0
+    for (n, T, kind) in ([(4, 2, 'kmu'), (5, 3, 'kppi')] if chk.quick else [(4, 2, 'kmu'), (5, 3, 'kppi'), (6, 3, 'kmu'), (4, 4, 'kppi')]):
+        kz = n // 2 + 1
+        w = np.arange(1, n * n * kz + 1, dtype=np.float64).reshape(n, n, kz)
+        kedges = np.array([0.5, 1.5, 2.5, 9.5])
+        muedges = np.array([0.0, 0.5, 1.0])
+        kern = bin_kmu if kind == 'kmu' else bin_kppi
+        args = (n, L, kedges, muedges, w) if kind == 'kmu' else (n, L, kedges, 2.5, 2, w)
+        ref = kern(*args, dtype=np.float64, nthread=1)
+
+        def build(sc, hook, kern=kern, args=args, T=T):
+            sc.nthreads = T
+
+            class NB:
+                @staticmethod
+                def set_num_threads(k):
+                    pass
+
+                @staticmethod
+                def get_num_threads():
+                    return T
+
+                @staticmethod
+                def get_thread_id():
+                    return sc.thread_id()
+
+                @staticmethod
+                def prange(k):
+                    return range(k)
+            fn = sched.threaded_source(kern, sc, share=['counts', 'weighted_counts', 'weighted_counts_poles', 'weighted_counts_k'], overrides={'numba': NB})
+            fn.__globals__['__par'] = hook(sc.par)
+            return lambda: [sched.unwrap(x) for x in fn(*args, dtype=np.float64, nthread=T)]
+
+        def check(res, ref=ref):
+            for a, b in zip(res, ref):
+                if a is not None and not np.allclose(np.asarray(a, dtype=np.float64), np.asarray(b, dtype=np.float64), rtol=1e-12, atol=0):
+                    return f'result {np.asarray(a).tolist()} differs from the single-thread result {np.asarray(b).tolist()}'
+            return None
+        r = sched.explore(build, check, max_schedules=12, seed=chk.seed, random_schedules=3)
+        nsch += r['schedules']
+        if r['problem']:
+            chk.violation(f'schedule-{kind}', f'bin_{kind} n={n} with {T} worker threads: {r["problem"]}', dict(n=n, T=T, kind=kind))
+    chk.part('schedule_replay', schedules=nsch)
+    chk.add_cases(nsch)
     if bad_model:
         chk.note(f'model-drift C08: layer A ("fixed" variant) disagrees with layer D on instances {[insts[i] for i in bad_model[:3]]} (real code judged per mode above)')
     chk.add_cases(nprobe + nw, nontrivial=nontriv, traces=nprobe + nw)
